@@ -416,7 +416,7 @@ def dedupe(t):
         for x in t[1]:
             x = dedupe(x)
             v, _ = build(PC.strip_comments_term(x))
-            if any(v == s and hash(v) == hash(s) for s in seen):
+            if any(v is s or (v == s and hash(v) == hash(s)) for s in seen):
                 continue
             seen.append(v)
             out.append(x)
@@ -426,7 +426,7 @@ def dedupe(t):
         for a, b in t[1]:
             a = dedupe(a)
             v, _ = build(PC.strip_comments_term(a))
-            if any(v == s and hash(v) == hash(s) for s in seen):
+            if any(v is s or (v == s and hash(v) == hash(s)) for s in seen):
                 continue
             seen.append(v)
             out.append((a, dedupe(b)))
